@@ -1,4 +1,5 @@
 mod alloc;
+mod diag;
 mod engine;
 mod genr;
 mod prng;
